@@ -1,23 +1,32 @@
 package main
 
 // Fact group "StateAlias" (property C08): the Go aliasing facts the value-based Lean model of StateDB snapshots relies on,
-// read off the source by shape.
+// read off the source by ROLE (not by the names of locals / receivers, not by where a literal is built, looking through
+// unexported same-package helpers):
 //
-//   * core/store/overlaydb/memdb.go   MemDB.DeepClone builds a new MemDB whose slice fields are fresh copies
-//     (`append([]T{}, self.f...)`), and MemDB has no other slice/map field that would stay shared;
-//   * smartcontract/storage/statedb.go Snapshot() clones the memdb with DeepClone, allocates a fresh map with make(), copies
-//     self.Suicided into it entry by entry and stores THAT map, the length of the log slice and the refund counter;
-//     the snapshot struct holds no slice; RevertToSnapshot assigns all four parts back and cuts the stack;
-//     self.logs is only ever appended to (AddLog) or truncated (RevertToSnapshot); the CacheDB.memdb pointer is only replaced
-//     by RevertToSnapshot.
+//   * core/store/overlaydb: `MemDB.DeepClone` yields a `MemDB{…}` literal (returned directly or through a local) that sets
+//     every field of the struct and whose slice/map fields are `append([]T{}, <receiver>.f...)` (new backing array);
+//     the reference-typed fields of MemDB are listed (a new shared field is noticed).
+//   * smartcontract/storage: `Snapshot()` pushes (append to <receiver>.snapshots) a `snapshot{…}` literal — built inline or in a
+//     local — whose `changes` is `<receiver>.cacheDB.memdb.DeepClone()`, whose `suicided` is a FRESH COPY of
+//     `<receiver>.Suicided` (a map made by make() in this function or in a helper, assigned nowhere else, filled by one
+//     `for k, v := range <receiver>.Suicided { m[k] = v }`, on every path), whose `logsSize` is `len(<receiver>.logs)` and whose
+//     `refund` is `<receiver>.refund`;
+//     `RevertToSnapshot(idx)` executes, unconditionally at the top level of its body, exactly the five restoring assignments
+//     (set, order-free; the saved snapshot's local and the receiver are normalised);
+//     who writes `.logs` (append / truncate), the `CacheDB.memdb` pointer and `.Suicided` (set entry / fresh make / the popped
+//     snapshot's map), by function and KIND of write.
 //
-// Nothing is guessed: a missing function/struct is an error; a shape that is not the expected one is emitted as it is (strings
-// / `false`), and `Props/C08.lean` stops checking.
+// Nothing is guessed: a missing function/struct is an error; a shape that is not understood yields `false` / the printed
+// expression, and `Props/C08.lean` stops checking.
 
 import (
 	"fmt"
 	"go/ast"
+	"go/parser"
 	"go/token"
+	"os"
+	"path/filepath"
 	"sort"
 	"strings"
 )
@@ -43,6 +52,17 @@ func saPairs(ps [][2]string) string {
 	return "[" + strings.Join(it, ",\n   ") + "]"
 }
 
+func saList(xs []string) string {
+	if len(xs) == 0 {
+		return "[]"
+	}
+	var it []string
+	for _, x := range xs {
+		it = append(it, saStr(x))
+	}
+	return "[" + strings.Join(it, ",\n   ") + "]"
+}
+
 func saBool(b bool) string {
 	if b {
 		return "true"
@@ -50,65 +70,129 @@ func saBool(b bool) string {
 	return "false"
 }
 
-// structFields returns (name, printed type) of every field of struct `name` declared in f.
-func structFields(fset *token.FileSet, f *ast.File, name string) ([][2]string, bool) {
-	var out [][2]string
-	found := false
-	ast.Inspect(f, func(n ast.Node) bool {
-		ts, ok := n.(*ast.TypeSpec)
-		if !ok || ts.Name.Name != name {
-			return true
+// saStruct finds `type <name> struct` in any non-test file of the package and returns (field, printed type).
+func saStruct(repo, dir, name string) ([][2]string, error) {
+	ents, err := os.ReadDir(filepath.Join(repo, dir))
+	if err != nil {
+		return nil, err
+	}
+	for _, e := range ents {
+		n := e.Name()
+		if e.IsDir() || !strings.HasSuffix(n, ".go") || strings.HasSuffix(n, "_test.go") || strings.HasPrefix(n, "verif_export_") {
+			continue
 		}
-		st, ok := ts.Type.(*ast.StructType)
+		fset := token.NewFileSet()
+		f, err := parser.ParseFile(fset, filepath.Join(repo, dir, n), nil, 0)
+		if err != nil {
+			return nil, err
+		}
+		var out [][2]string
+		found := false
+		ast.Inspect(f, func(nd ast.Node) bool {
+			ts, ok := nd.(*ast.TypeSpec)
+			if !ok || ts.Name.Name != name {
+				return true
+			}
+			st, ok := ts.Type.(*ast.StructType)
+			if !ok {
+				return true
+			}
+			found = true
+			for _, fl := range st.Fields.List {
+				t := flat(fset, fl.Type)
+				if len(fl.Names) == 0 {
+					out = append(out, [2]string{"(embedded)", t})
+				}
+				for _, nm := range fl.Names {
+					out = append(out, [2]string{nm.Name, t})
+				}
+			}
+			return false
+		})
+		if found {
+			return out, nil
+		}
+	}
+	return nil, fmt.Errorf("%s: struct %s not found", dir, name)
+}
+
+func recvName(fd *ast.FuncDecl) string {
+	if fd.Recv != nil && len(fd.Recv.List) == 1 && len(fd.Recv.List[0].Names) == 1 {
+		return fd.Recv.List[0].Names[0].Name
+	}
+	return ""
+}
+
+// saNorm prints e on one line with the given identifiers renamed (receiver -> recv, saved-snapshot local -> saved, …).
+func saNorm(fset *token.FileSet, e ast.Node, ren map[string]string) string {
+	// go/printer on a copy with renamed identifiers: identifiers are leaves, rename textually on the token level
+	var sb strings.Builder
+	s := exprString(fset, e)
+	// tokenise identifiers
+	i := 0
+	isID := func(c byte) bool { return c == '_' || c >= 'a' && c <= 'z' || c >= 'A' && c <= 'Z' || c >= '0' && c <= '9' }
+	for i < len(s) {
+		if isID(s[i]) && !(s[i] >= '0' && s[i] <= '9') {
+			j := i
+			for j < len(s) && isID(s[j]) {
+				j++
+			}
+			w := s[i:j]
+			prevDot := i > 0 && s[i-1] == '.'
+			if r, ok := ren[w]; ok && !prevDot {
+				sb.WriteString(r)
+			} else {
+				sb.WriteString(w)
+			}
+			i = j
+			continue
+		}
+		sb.WriteByte(s[i])
+		i++
+	}
+	return strings.Join(strings.Fields(sb.String()), "")
+}
+
+// litOf finds the composite literal of struct type `typ` (plain or &-ed) that `fn` builds, wherever it stands
+// (assigned to a local, returned, passed to append). Exactly one is expected.
+func litOf(fn *ast.FuncDecl, typ string) (*ast.CompositeLit, int) {
+	var lit *ast.CompositeLit
+	n := 0
+	ast.Inspect(fn.Body, func(nd ast.Node) bool {
+		cl, ok := nd.(*ast.CompositeLit)
 		if !ok {
 			return true
 		}
-		found = true
-		for _, fl := range st.Fields.List {
-			t := exprString(fset, fl.Type)
-			if len(fl.Names) == 0 {
-				out = append(out, [2]string{"(embedded)", t})
-			}
-			for _, nm := range fl.Names {
-				out = append(out, [2]string{nm.Name, t})
+		if id, ok := cl.Type.(*ast.Ident); ok && id.Name == typ {
+			n++
+			if lit == nil {
+				lit = cl
 			}
 		}
-		return false
+		return true
 	})
-	return out, found
+	return lit, n
 }
 
-// litFields returns the (key, printed value) pairs of the first composite literal of type `typ` (or &typ) inside fn.
-func litFields(fset *token.FileSet, fn *ast.FuncDecl, typ string) ([][2]string, map[string]ast.Expr, bool) {
-	var out [][2]string
-	exprs := map[string]ast.Expr{}
-	found := false
-	ast.Inspect(fn.Body, func(n ast.Node) bool {
-		cl, ok := n.(*ast.CompositeLit)
-		if !ok || found {
-			return true
+func litFieldExprs(cl *ast.CompositeLit) (map[string]ast.Expr, bool) {
+	out := map[string]ast.Expr{}
+	for _, el := range cl.Elts {
+		kv, ok := el.(*ast.KeyValueExpr)
+		if !ok {
+			return nil, false
 		}
-		if id, ok := cl.Type.(*ast.Ident); !ok || id.Name != typ {
-			return true
+		id, ok := kv.Key.(*ast.Ident)
+		if !ok {
+			return nil, false
 		}
-		found = true
-		for _, el := range cl.Elts {
-			if kv, ok := el.(*ast.KeyValueExpr); ok {
-				k := exprString(fset, kv.Key)
-				out = append(out, [2]string{k, exprString(fset, kv.Value)})
-				exprs[k] = kv.Value
-			} else {
-				out = append(out, [2]string{"(positional)", exprString(fset, el)})
-			}
-		}
-		return false
-	})
-	return out, exprs, found
+		out[id.Name] = kv.Value
+	}
+	return out, true
 }
 
-// isFreshCopyOf: `append([]T{}, <src>...)` — a new backing array holding a copy of src
-func isFreshCopyOf(fset *token.FileSet, e ast.Expr, src string) bool {
-	ce, ok := e.(*ast.CallExpr)
+// isFreshSliceCopy: `append([]T{}, <recv>.<field>...)`
+func isFreshSliceCopy(fset *token.FileSet, e ast.Expr, recv, field string) bool {
+	ce, ok := stripParens(e).(*ast.CallExpr)
 	if !ok || len(ce.Args) != 2 || !ce.Ellipsis.IsValid() {
 		return false
 	}
@@ -122,182 +206,414 @@ func isFreshCopyOf(fset *token.FileSet, e ast.Expr, src string) bool {
 	if _, ok := cl.Type.(*ast.ArrayType); !ok {
 		return false
 	}
-	return exprString(fset, ce.Args[1]) == src
+	return flat(fset, ce.Args[1]) == recv+"."+field
+}
+
+// freshMapCopyIn: inside fn the local `name` is a fresh copy of `<recv>.<field>` on every path:
+// it is defined exactly once, by `name := make(map…)` at the top level of the body, never assigned again, never
+// address-taken, and written only by the body `name[k] = v` of one top-level `for k, v := range <recv>.<field>`.
+func freshMapCopyIn(fset *token.FileSet, fn *ast.FuncDecl, name, recv, field string) bool {
+	defs, loops, otherWrites := 0, 0, 0
+	for _, st := range fn.Body.List {
+		switch s := st.(type) {
+		case *ast.AssignStmt:
+			if len(s.Lhs) == 1 && len(s.Rhs) == 1 {
+				if id, ok := s.Lhs[0].(*ast.Ident); ok && id.Name == name {
+					if s.Tok == token.DEFINE {
+						if ce, ok := s.Rhs[0].(*ast.CallExpr); ok {
+							if f, ok := ce.Fun.(*ast.Ident); ok && f.Name == "make" && len(ce.Args) >= 1 {
+								if _, ok := ce.Args[0].(*ast.MapType); ok {
+									defs++
+									continue
+								}
+							}
+						}
+					}
+					otherWrites++
+				}
+			}
+		case *ast.RangeStmt:
+			if flat(fset, s.X) == recv+"."+field && s.Tok == token.DEFINE && s.Key != nil && s.Value != nil && len(s.Body.List) == 1 {
+				k, ok1 := s.Key.(*ast.Ident)
+				v, ok2 := s.Value.(*ast.Ident)
+				as, ok3 := s.Body.List[0].(*ast.AssignStmt)
+				if ok1 && ok2 && ok3 && as.Tok == token.ASSIGN && len(as.Lhs) == 1 && len(as.Rhs) == 1 &&
+					flat(fset, as.Lhs[0]) == name+"["+k.Name+"]" && flat(fset, as.Rhs[0]) == v.Name {
+					loops++
+				}
+			}
+		}
+	}
+	// any other mention that writes the local anywhere in the function (nested assignment, index write, &name, var decl)
+	ast.Inspect(fn.Body, func(n ast.Node) bool {
+		switch s := n.(type) {
+		case *ast.AssignStmt:
+			for _, l := range s.Lhs {
+				if id, ok := l.(*ast.Ident); ok && id.Name == name {
+					otherWrites++
+				}
+				if ix, ok := l.(*ast.IndexExpr); ok {
+					if id, ok := ix.X.(*ast.Ident); ok && id.Name == name {
+						otherWrites++
+					}
+				}
+			}
+		case *ast.UnaryExpr:
+			if id, ok := s.X.(*ast.Ident); ok && s.Op == token.AND && id.Name == name {
+				otherWrites += 10
+			}
+		case *ast.ValueSpec:
+			for _, nm := range s.Names {
+				if nm.Name == name {
+					otherWrites += 10
+				}
+			}
+		case *ast.CallExpr:
+			if f, ok := s.Fun.(*ast.Ident); ok && f.Name == "delete" && len(s.Args) > 0 && flat(fset, s.Args[0]) == name {
+				otherWrites += 10
+			}
+		}
+		return true
+	})
+	// the inspection above counts the definition and the loop's write once each
+	return defs == 1 && loops == 1 && otherWrites == 2
+}
+
+// isFreshMapCopyExpr: the expression (a field value of the snapshot literal inside fn) denotes a fresh copy of <recv>.<field>:
+// a local of fn with freshMapCopyIn, or a call `<recv>.h()` of a same-package helper h whose every return returns a local of
+// h with freshMapCopyIn (relative to h's own receiver).
+func isFreshMapCopyExpr(fset *token.FileSet, funcs map[string]*ast.FuncDecl, fn *ast.FuncDecl, e ast.Expr, field string) bool {
+	switch x := stripParens(e).(type) {
+	case *ast.Ident:
+		return freshMapCopyIn(fset, fn, x.Name, recvName(fn), field)
+	case *ast.CallExpr:
+		if len(x.Args) != 0 {
+			return false
+		}
+		sel, ok := x.Fun.(*ast.SelectorExpr)
+		if !ok || flat(fset, sel.X) != recvName(fn) {
+			return false
+		}
+		h := calleeOf(funcs, x)
+		if h == nil || recvName(h) == "" {
+			return false
+		}
+		rets, ok2 := 0, true
+		var local string
+		ast.Inspect(h.Body, func(n ast.Node) bool {
+			if _, isLit := n.(*ast.FuncLit); isLit {
+				return false
+			}
+			if r, ok := n.(*ast.ReturnStmt); ok {
+				rets++
+				if len(r.Results) != 1 {
+					ok2 = false
+					return true
+				}
+				id, ok := r.Results[0].(*ast.Ident)
+				if !ok || (local != "" && local != id.Name) {
+					ok2 = false
+					return true
+				}
+				local = id.Name
+			}
+			return true
+		})
+		return ok2 && rets >= 1 && freshMapCopyIn(fset, h, local, recvName(h), field)
+	}
+	return false
 }
 
 func genStateAlias(repo string) (string, error) {
-	const memFile = "core/store/overlaydb/memdb.go"
-	const sdbFile = "smartcontract/storage/statedb.go"
-	const cdbFile = "smartcontract/storage/cachedb.go"
-	mfset, mf, err := parseFile(repo, memFile)
+	const memDir = "core/store/overlaydb"
+	const stoDir = "smartcontract/storage"
+	mfset, mfuncs, err := pkgFuncs(repo, memDir)
 	if err != nil {
 		return "", err
 	}
-	sfset, sf, err := parseFile(repo, sdbFile)
-	if err != nil {
-		return "", err
-	}
-	cfset, cf, err := parseFile(repo, cdbFile)
+	sfset, sfuncs, err := pkgFuncs(repo, stoDir)
 	if err != nil {
 		return "", err
 	}
 
 	// ---- MemDB struct and DeepClone
-	memFields, ok := structFields(mfset, mf, "MemDB")
-	if !ok {
-		return "", fmt.Errorf("%s: struct MemDB not found", memFile)
+	memFields, err := saStruct(repo, memDir, "MemDB")
+	if err != nil {
+		return "", err
 	}
-	var memRefFields [][2]string // fields whose type is a slice, map, pointer (or the comparer interface)
+	var memRefFields [][2]string
 	for _, f := range memFields {
 		t := f[1]
 		if strings.HasPrefix(t, "[]") || strings.HasPrefix(t, "map[") || strings.HasPrefix(t, "*") || strings.Contains(t, "Comparer") {
 			memRefFields = append(memRefFields, f)
 		}
 	}
-	dc := findFunc(mf, "DeepClone")
+	dc := mfuncs["MemDB.DeepClone"]
 	if dc == nil {
-		return "", fmt.Errorf("%s: func DeepClone not found", memFile)
+		return "", fmt.Errorf("%s: method MemDB.DeepClone not found", memDir)
 	}
-	dcFields, dcExprs, ok := litFields(mfset, dc, "MemDB")
-	if !ok {
-		return "", fmt.Errorf("%s:DeepClone: composite literal MemDB{…} not found", memFile)
+	dcLit, nLit := litOf(dc, "MemDB")
+	if dcLit == nil {
+		return "", fmt.Errorf("%s:DeepClone: no MemDB{…} literal", memDir)
 	}
-	recv := "self"
-	if dc.Recv != nil && len(dc.Recv.List) == 1 && len(dc.Recv.List[0].Names) == 1 {
-		recv = dc.Recv.List[0].Names[0].Name
-	}
-	fresh := true
-	for _, f := range memFields {
-		if strings.HasPrefix(f[1], "[]") || strings.HasPrefix(f[1], "map[") {
+	dcExprs, keyed := litFieldExprs(dcLit)
+	fresh, allSet := keyed && nLit == 1, keyed && nLit == 1
+	if keyed {
+		for _, f := range memFields {
 			e, ok := dcExprs[f[0]]
-			if !ok || !isFreshCopyOf(mfset, e, recv+"."+f[0]) {
-				fresh = false
+			if !ok {
+				allSet = false
+				continue
+			}
+			if strings.HasPrefix(f[1], "[]") || strings.HasPrefix(f[1], "map[") {
+				if !isFreshSliceCopy(mfset, e, recvName(dc), f[0]) {
+					fresh = false
+				}
 			}
 		}
 	}
-	// every field of the struct is set by the literal (nothing silently left zero / shared)
-	allSet := true
-	for _, f := range memFields {
-		if _, ok := dcExprs[f[0]]; !ok {
-			allSet = false
+	// the literal is what DeepClone returns (directly, &-ed, or through a local that is only defined by it)
+	returnsLit := false
+	dcDefs := singleDefs(dc)
+	ast.Inspect(dc.Body, func(n ast.Node) bool {
+		if r, ok := n.(*ast.ReturnStmt); ok && len(r.Results) == 1 {
+			e := stripParens(inlineLocals(r.Results[0], dcDefs))
+			if u, ok := e.(*ast.UnaryExpr); ok && u.Op == token.AND {
+				e = u.X
+			}
+			returnsLit = e == ast.Expr(dcLit)
+		}
+		return true
+	})
+
+	// ---- snapshot struct, Snapshot()
+	snapFields, err := saStruct(repo, stoDir, "snapshot")
+	if err != nil {
+		return "", err
+	}
+	snap, rev := sfuncs["StateDB.Snapshot"], sfuncs["StateDB.RevertToSnapshot"]
+	if snap == nil || rev == nil {
+		return "", fmt.Errorf("%s: StateDB.Snapshot / StateDB.RevertToSnapshot not found", stoDir)
+	}
+	sr := recvName(snap)
+	snapLit, nSnapLit := litOf(snap, "snapshot")
+	if snapLit == nil {
+		return "", fmt.Errorf("%s:Snapshot: no snapshot{…} literal", stoDir)
+	}
+	snapExprs, keyed2 := litFieldExprs(snapLit)
+	sdefs := singleDefs(snap)
+	mapFresh, memCloned, logsLen, refundVal, pushed := false, false, false, false, false
+	if keyed2 && nSnapLit == 1 && sr != "" {
+		if e, ok := snapExprs["suicided"]; ok {
+			mapFresh = isFreshMapCopyExpr(sfset, sfuncs, snap, e, "Suicided")
+		}
+		if e, ok := snapExprs["changes"]; ok {
+			memCloned = flat(sfset, stripParens(inlineLocals(e, sdefs))) == sr+".cacheDB.memdb.DeepClone()"
+		}
+		if e, ok := snapExprs["logsSize"]; ok {
+			logsLen = flat(sfset, stripParens(inlineLocals(e, sdefs))) == "len("+sr+".logs)"
+		}
+		if e, ok := snapExprs["refund"]; ok {
+			refundVal = flat(sfset, stripParens(inlineLocals(e, sdefs))) == sr+".refund"
+		}
+		// <recv>.snapshots = append(<recv>.snapshots, <the literal>) at the top level of the body
+		for _, st := range snap.Body.List {
+			as, ok := st.(*ast.AssignStmt)
+			if !ok || as.Tok != token.ASSIGN || len(as.Lhs) != 1 || len(as.Rhs) != 1 || flat(sfset, as.Lhs[0]) != sr+".snapshots" {
+				continue
+			}
+			ce, ok := as.Rhs[0].(*ast.CallExpr)
+			if !ok || len(ce.Args) != 2 || flat(sfset, ce.Fun) != "append" || flat(sfset, ce.Args[0]) != sr+".snapshots" {
+				continue
+			}
+			e := stripParens(inlineLocals(ce.Args[1], sdefs))
+			if u, ok := e.(*ast.UnaryExpr); ok && u.Op == token.AND {
+				e = u.X
+			}
+			if e == ast.Expr(snapLit) {
+				pushed = true
+			}
 		}
 	}
+	var snapFieldNames []string
+	for k := range snapExprs {
+		snapFieldNames = append(snapFieldNames, k)
+	}
+	sort.Strings(snapFieldNames)
 
-	// ---- snapshot struct, Snapshot(), RevertToSnapshot()
-	snapFields, ok := structFields(sfset, sf, "snapshot")
-	if !ok {
-		return "", fmt.Errorf("%s: struct snapshot not found", sdbFile)
+	// ---- RevertToSnapshot: unconditional top-level assignments, normalised
+	rr := recvName(rev)
+	idx := ""
+	if rev.Type.Params != nil && len(rev.Type.Params.List) == 1 && len(rev.Type.Params.List[0].Names) == 1 {
+		idx = rev.Type.Params.List[0].Names[0].Name
 	}
-	snap := findFunc(sf, "Snapshot")
-	rev := findFunc(sf, "RevertToSnapshot")
-	if snap == nil || rev == nil {
-		return "", fmt.Errorf("%s: Snapshot / RevertToSnapshot not found", sdbFile)
+	ren := map[string]string{rr: "recv", idx: "idx"}
+	// the local holding the saved snapshot: defined as <recv>.snapshots[<idx>]
+	for _, st := range rev.Body.List {
+		if as, ok := st.(*ast.AssignStmt); ok && as.Tok == token.DEFINE && len(as.Lhs) == 1 && len(as.Rhs) == 1 {
+			if id, ok := as.Lhs[0].(*ast.Ident); ok && flat(sfset, as.Rhs[0]) == rr+".snapshots["+idx+"]" {
+				ren[id.Name] = "saved"
+			}
+		}
 	}
-	snapLit, snapExprs, ok := litFields(sfset, snap, "snapshot")
-	if !ok {
-		return "", fmt.Errorf("%s:Snapshot: composite literal snapshot{…} not found", sdbFile)
+	var revSet []string
+	for _, st := range rev.Body.List {
+		if as, ok := st.(*ast.AssignStmt); ok && as.Tok == token.ASSIGN {
+			s := saNorm(sfset, as, ren)
+			s = strings.ReplaceAll(s, "recv.snapshots[idx].", "saved.")
+			revSet = append(revSet, s)
+		}
 	}
-	// the map stored in the snapshot: a local allocated by make(map…) and filled by a range loop over self.Suicided
-	mapFresh := false
-	if id, ok := snapExprs["suicided"].(*ast.Ident); ok {
-		madeByMake, copied := false, false
-		for _, rhs := range assignsTo(snap, id.Name) {
-			if ce, ok := rhs.(*ast.CallExpr); ok {
-				if f, ok := ce.Fun.(*ast.Ident); ok && f.Name == "make" && len(ce.Args) >= 1 {
-					if _, ok := ce.Args[0].(*ast.MapType); ok {
-						madeByMake = true
+	sort.Strings(revSet)
+	// anything else at the top level that is not the saved-local definition or a call (bounds check) is reported
+	var revOther []string
+	for _, st := range rev.Body.List {
+		switch s := st.(type) {
+		case *ast.AssignStmt:
+			if s.Tok == token.ASSIGN {
+				continue
+			}
+			if s.Tok == token.DEFINE && len(s.Rhs) == 1 && flat(sfset, s.Rhs[0]) == rr+".snapshots["+idx+"]" {
+				continue
+			}
+		case *ast.IfStmt:
+			if alwaysExits(s.Body.List) && s.Else == nil && s.Init == nil {
+				onlyPanic := true
+				for _, b := range s.Body.List {
+					es, ok := b.(*ast.ExprStmt)
+					if !ok {
+						onlyPanic = false
+						continue
+					}
+					ce, ok := es.X.(*ast.CallExpr)
+					if !ok || flat(sfset, ce.Fun) != "panic" {
+						onlyPanic = false
+					}
+				}
+				if onlyPanic {
+					continue // the bounds check
+				}
+			}
+		case *ast.ExprStmt:
+			// a call of a helper that contains no assignment (e.g. the extracted bounds check)
+			if ce, ok := s.X.(*ast.CallExpr); ok {
+				if h := calleeOf(sfuncs, ce); h != nil {
+					writes := false
+					ast.Inspect(h.Body, func(n ast.Node) bool {
+						switch n.(type) {
+						case *ast.AssignStmt, *ast.IncDecStmt:
+							writes = true
+						}
+						return true
+					})
+					if !writes {
+						continue
 					}
 				}
 			}
 		}
-		ast.Inspect(snap.Body, func(n ast.Node) bool {
-			rs, ok := n.(*ast.RangeStmt)
-			if !ok || !strings.HasSuffix(exprString(sfset, rs.X), ".Suicided") || rs.Key == nil || rs.Value == nil || len(rs.Body.List) != 1 {
-				return true
-			}
-			want := id.Name + "[" + exprString(sfset, rs.Key) + "] = " + exprString(sfset, rs.Value)
-			if exprString(sfset, rs.Body.List[0]) == want {
-				copied = true
-			}
-			return true
-		})
-		nAssign := len(assignsTo(snap, id.Name))
-		mapFresh = madeByMake && copied && nAssign == 1
-	}
-	// the memdb stored in the snapshot: a local assigned exactly once from ….DeepClone()
-	memCloned := false
-	if id, ok := snapExprs["changes"].(*ast.Ident); ok {
-		as := assignsTo(snap, id.Name)
-		if len(as) == 1 && strings.HasSuffix(exprString(sfset, as[0]), ".cacheDB.memdb.DeepClone()") {
-			memCloned = true
-		}
-	} else if e, ok := snapExprs["changes"]; ok && strings.HasSuffix(exprString(sfset, e), ".cacheDB.memdb.DeepClone()") {
-		memCloned = true
-	}
-	var revAssigns []string
-	for _, st := range rev.Body.List {
-		if as, ok := st.(*ast.AssignStmt); ok && as.Tok == token.ASSIGN {
-			revAssigns = append(revAssigns, exprString(sfset, as))
-		}
+		revOther = append(revOther, saNorm(sfset, st, ren))
 	}
 
-	// ---- who writes self.logs / the CacheDB.memdb pointer / the Suicided map
-	
-	collect := func(fset *token.FileSet, f *ast.File, match func(lhs string) bool) [][2]string {
+	// ---- who writes .logs / .memdb / .Suicided in package storage: (function, kind)
+	kindOf := func(fset *token.FileSet, fd *ast.FuncDecl, lhs, rhs ast.Expr) string {
+		r := recvName(fd)
+		l := flat(fset, lhs)
+		if ix, ok := lhs.(*ast.IndexExpr); ok {
+			return "set-entry:" + strings.TrimPrefix(flat(fset, ix.X), r+".")
+		}
+		switch x := stripParens(rhs).(type) {
+		case *ast.CallExpr:
+			f := flat(fset, x.Fun)
+			if f == "append" && len(x.Args) >= 1 && flat(fset, x.Args[0]) == l && !x.Ellipsis.IsValid() {
+				return "append"
+			}
+			if f == "make" && len(x.Args) >= 1 {
+				if _, ok := x.Args[0].(*ast.MapType); ok {
+					return "fresh-make"
+				}
+			}
+		case *ast.SliceExpr:
+			if flat(fset, x.X) == l && x.Low == nil && x.High != nil && x.Max == nil {
+				return "truncate"
+			}
+		case *ast.SelectorExpr:
+			// a field of a local (the popped snapshot): `<local>.<field>`
+			if id, ok := x.X.(*ast.Ident); ok && id.Name != r {
+				return "snapshot-field:" + x.Sel.Name
+			}
+		}
+		return "other:" + flat(fset, rhs)
+	}
+	collect := func(match func(l string) bool) [][2]string {
 		var out [][2]string
-		for _, d := range f.Decls {
-			fd, ok := d.(*ast.FuncDecl)
-			if !ok || fd.Body == nil {
+		seen := map[*ast.FuncDecl]bool{}
+		var names []string
+		for n := range sfuncs {
+			names = append(names, n)
+		}
+		sort.Strings(names)
+		for _, n := range names {
+			fd := sfuncs[n]
+			if seen[fd] {
 				continue
 			}
-			ast.Inspect(fd.Body, func(n ast.Node) bool {
-				as, ok := n.(*ast.AssignStmt)
-				if !ok {
+			seen[fd] = true
+			r := recvName(fd)
+			ast.Inspect(fd.Body, func(nd ast.Node) bool {
+				as, ok := nd.(*ast.AssignStmt)
+				if !ok || len(as.Lhs) != len(as.Rhs) {
 					return true
 				}
-				for _, l := range as.Lhs {
-					if match(exprString(fset, l)) {
-						out = append(out, [2]string{fd.Name.Name, exprString(fset, as)})
-						break
+				for i, l := range as.Lhs {
+					ls := flat(sfset, l)
+					if r != "" {
+						ls = strings.TrimPrefix(ls, r+".")
+					}
+					if match(ls) {
+						out = append(out, [2]string{fd.Name.Name, kindOf(sfset, fd, l, as.Rhs[i])})
 					}
 				}
 				return true
 			})
 		}
-		sort.SliceStable(out, func(i, j int) bool { return out[i][0] < out[j][0] })
+		sort.SliceStable(out, func(i, j int) bool {
+			if out[i][0] != out[j][0] {
+				return out[i][0] < out[j][0]
+			}
+			return out[i][1] < out[j][1]
+		})
 		return out
 	}
-	logsWrites := collect(sfset, sf, func(l string) bool { return strings.HasSuffix(l, ".logs") || strings.Contains(l, ".logs[") })
-	memdbPtrWrites := append(collect(sfset, sf, func(l string) bool { return strings.HasSuffix(l, ".memdb") }),
-		collect(cfset, cf, func(l string) bool { return strings.HasSuffix(l, ".memdb") })...)
-	suicidedWrites := collect(sfset, sf, func(l string) bool { return strings.HasSuffix(l, ".Suicided") || strings.Contains(l, ".Suicided[") })
+	logsWrites := collect(func(l string) bool { return l == "logs" || strings.HasSuffix(l, ".logs") || strings.Contains(l, "logs[") })
+	memdbPtrWrites := collect(func(l string) bool { return l == "memdb" || strings.HasSuffix(l, ".memdb") })
+	suicidedWrites := collect(func(l string) bool {
+		return l == "Suicided" || strings.HasSuffix(l, ".Suicided") || strings.HasPrefix(l, "Suicided[") || strings.Contains(l, ".Suicided[")
+	})
 
 	var sb strings.Builder
 	sb.WriteString("namespace OntVerif.Gen.StateAlias\n\n")
-	fmt.Fprintf(&sb, "/-- %s: fields of `MemDB` of slice / map / pointer / interface type (everything that can be shared between two MemDB values) -/\n", memFile)
+	fmt.Fprintf(&sb, "/-- %s: fields of `MemDB` of slice / map / pointer / interface type (everything two MemDB values can share) -/\n", memDir)
 	fmt.Fprintf(&sb, "def memDBRefFields : List (String × String) :=\n  %s\n\n", saPairs(memRefFields))
-	fmt.Fprintf(&sb, "/-- %s:DeepClone — the fields of the literal it returns -/\n", memFile)
-	fmt.Fprintf(&sb, "def deepCloneLiteral : List (String × String) :=\n  %s\n\n", saPairs(dcFields))
-	fmt.Fprintf(&sb, "/-- every slice/map field of MemDB is set to `append([]T{}, %s.f...)` (new backing array) by DeepClone -/\n", recv)
+	sb.WriteString("/-- DeepClone builds exactly one `MemDB{…}` literal whose slice/map fields are `append([]T{}, <receiver>.f...)` (new backing array) -/\n")
 	fmt.Fprintf(&sb, "def deepCloneSlicesFresh : Bool := %s\n\n", saBool(fresh))
-	fmt.Fprintf(&sb, "/-- DeepClone's literal sets every field of MemDB -/\ndef deepCloneSetsAllFields : Bool := %s\n\n", saBool(allSet))
-	fmt.Fprintf(&sb, "/-- %s: fields of `snapshot` -/\ndef snapshotStruct : List (String × String) :=\n  %s\n\n", sdbFile, saPairs(snapFields))
-	fmt.Fprintf(&sb, "/-- %s:Snapshot — the fields of the snapshot literal -/\ndef snapshotLiteral : List (String × String) :=\n  %s\n\n", sdbFile, saPairs(snapLit))
-	fmt.Fprintf(&sb, "/-- the `suicided` stored by Snapshot() is a local assigned once from `make(map…)` and filled by `for k, v := range self.Suicided { m[k] = v }` -/\n")
+	fmt.Fprintf(&sb, "/-- that literal sets every field of MemDB -/\ndef deepCloneSetsAllFields : Bool := %s\n\n", saBool(allSet))
+	fmt.Fprintf(&sb, "/-- and it is what DeepClone returns (directly or through a local) -/\ndef deepCloneReturnsLiteral : Bool := %s\n\n", saBool(returnsLit))
+	fmt.Fprintf(&sb, "/-- %s: fields of `snapshot` -/\ndef snapshotStruct : List (String × String) :=\n  %s\n\n", stoDir, saPairs(snapFields))
+	fmt.Fprintf(&sb, "/-- the fields the one `snapshot{…}` literal of Snapshot() sets -/\ndef snapshotLiteralFields : List String :=\n  %s\n\n", saList(snapFieldNames))
+	sb.WriteString("/-- its `suicided` is a fresh copy of `<receiver>.Suicided`: a map from make(), assigned nowhere else, filled by one range loop (in Snapshot or in a helper) -/\n")
 	fmt.Fprintf(&sb, "def snapshotMapFreshCopy : Bool := %s\n\n", saBool(mapFresh))
-	fmt.Fprintf(&sb, "/-- the `changes` stored by Snapshot() is the result of `self.cacheDB.memdb.DeepClone()` -/\n")
-	fmt.Fprintf(&sb, "def snapshotMemdbCloned : Bool := %s\n\n", saBool(memCloned))
-	fmt.Fprintf(&sb, "/-- %s:RevertToSnapshot — its top-level assignments in source order -/\ndef revertAssignments : List String :=\n  [%s]\n\n", sdbFile,
-		strings.Join(func() []string {
-			var o []string
-			for _, s := range revAssigns {
-				o = append(o, saStr(s))
-			}
-			return o
-		}(), ",\n   "))
-	fmt.Fprintf(&sb, "/-- every assignment to a `.logs` field in %s: (function, statement) -/\ndef logsWrites : List (String × String) :=\n  %s\n\n", sdbFile, saPairs(logsWrites))
-	fmt.Fprintf(&sb, "/-- every assignment to a `.memdb` field in %s and %s -/\ndef memdbPointerWrites : List (String × String) :=\n  %s\n\n", sdbFile, cdbFile, saPairs(memdbPtrWrites))
-	fmt.Fprintf(&sb, "/-- every assignment to `.Suicided` / `.Suicided[…]` in %s -/\ndef suicidedWrites : List (String × String) :=\n  %s\n\n", sdbFile, saPairs(suicidedWrites))
+	fmt.Fprintf(&sb, "/-- its `changes` is `<receiver>.cacheDB.memdb.DeepClone()` -/\ndef snapshotMemdbCloned : Bool := %s\n\n", saBool(memCloned))
+	fmt.Fprintf(&sb, "/-- its `logsSize` is `len(<receiver>.logs)` -/\ndef snapshotRecordsLogsLen : Bool := %s\n\n", saBool(logsLen))
+	fmt.Fprintf(&sb, "/-- its `refund` is `<receiver>.refund` -/\ndef snapshotRecordsRefund : Bool := %s\n\n", saBool(refundVal))
+	fmt.Fprintf(&sb, "/-- it is appended to `<receiver>.snapshots` unconditionally -/\ndef snapshotPushed : Bool := %s\n\n", saBool(pushed))
+	fmt.Fprintf(&sb, "/-- RevertToSnapshot: its unconditional top-level assignments (sorted; receiver = recv, parameter = idx, the local holding `recv.snapshots[idx]` = saved) -/\n")
+	fmt.Fprintf(&sb, "def revertAssignments : List String :=\n  %s\n\n", saList(revSet))
+	fmt.Fprintf(&sb, "/-- RevertToSnapshot: top-level statements that are neither such an assignment, nor the definition of `saved`, nor the bounds check (inline or in a helper that writes nothing) -/\n")
+	fmt.Fprintf(&sb, "def revertOtherStatements : List String :=\n  %s\n\n", saList(revOther))
+	fmt.Fprintf(&sb, "/-- every assignment to a `.logs` field in package %s: (function, kind of write) -/\ndef logsWrites : List (String × String) :=\n  %s\n\n", stoDir, saPairs(logsWrites))
+	fmt.Fprintf(&sb, "/-- every assignment to a `.memdb` field in package %s -/\ndef memdbPointerWrites : List (String × String) :=\n  %s\n\n", stoDir, saPairs(memdbPtrWrites))
+	fmt.Fprintf(&sb, "/-- every assignment to `.Suicided` / `.Suicided[…]` in package %s -/\ndef suicidedWrites : List (String × String) :=\n  %s\n\n", stoDir, saPairs(suicidedWrites))
 	sb.WriteString("end OntVerif.Gen.StateAlias\n")
 	return sb.String(), nil
 }
